@@ -365,7 +365,8 @@ def run(ck):
         reported.add(key)
         rep = {"function": r["op"], "site": SITE[r["op"]], "n": r["n"], "matrix_kind": r["kind"],
                "eps": r["eps"], "A": r["a"], "b": r.get("b"), "request_line": r["line"],
-               "implementation": a[:4000], "model": m[:4000], "exact_determinant_is_zero": det_exact(r["a"]) == 0,
+               "implementation": a[:4000], "model": m[:4000],
+               "implementation_values": [unhx(t) for t in a.split()[1:] if len(t) == 16 or t == "nan"][:200], "exact_determinant_is_zero": det_exact(r["a"]) == 0,
                "property_holds_on_implementation_output": holds, "reason": why}
         if not holds:
             ck.violation(key, "%s n=%d eps=%g on a %s matrix: %s" % (r["op"], r["n"], r["eps"], r["kind"], why), rep, True)
